@@ -265,6 +265,21 @@ func c12Run(c *core.Ctx, idx int) {
 		}
 	}
 
+	// Lines that are comments by the documented syntax ('!' lines, and '#'
+	// lines that do not start a cosmetic marker) yield nothing at all.
+	for _, cl := range []string{"! comment", "!", "!no space", "# comment", "#", "#\ttab comment", "#comment-without-space", "#  two spaces", "# ||looks.like.a.rule^", "#@ not a marker", "# 0.0.0.0 commented.example", "#||a.com^$important", "  # indented comment", "\t! indented"} {
+		var r rules.Rule
+		var err error
+		w := c12Witness{Line: cl, What: "NewRule(comment)"}
+		if c.Guard("NewRule", nil, w, func() { r, err = rules.NewRule(cl, id) }) {
+			continue
+		}
+		c.Eval(1)
+		if err != nil || (r != nil && !isNilRule(r)) {
+			c.Violation("comment-yields-something", nil, w, "NewRule(%q) = (%v, %v): a comment line must yield nothing", cl, r, err)
+		}
+	}
+
 	// Engines on a list containing all the lines of the batch.
 	reqs := c12Requests(c, batch[0])
 	content := util.Lines(batch)
@@ -352,4 +367,18 @@ func init() {
 		Cases: func(t core.Tier) int { return sizes[t] },
 		Run:   c12Run,
 	})
+}
+
+// isNilRule tells whether the interface holds a typed nil pointer.
+func isNilRule(r rules.Rule) bool {
+	switch v := r.(type) {
+	case *rules.NetworkRule:
+		return v == nil
+	case *rules.HostRule:
+		return v == nil
+	case *rules.CosmeticRule:
+		return v == nil
+	}
+
+	return false
 }
